@@ -511,3 +511,44 @@ pub fn run_sfs_stdout_to(args: &[&str], stdin: &[u8], sink: &Path, scratch: &Scr
     let _ = fs::remove_file(inp);
     Out { code: out.status.code(), signal: out.status.signal(), stdout: Vec::new(), stderr: out.stderr }
 }
+
+/// Runs `sfs` with stdout connected to a pipe whose read end is already closed: every write to
+/// stdout fails with EPIPE (Rust ignores SIGPIPE, so the process sees an error, not a signal).
+pub fn run_sfs_stdout_closed_pipe(args: &[&str], stdin: &[u8], scratch: &Scratch) -> Out {
+    use std::os::fd::FromRawFd;
+    let inp = scratch.file(".stdin", stdin);
+    let mut fds = [0i32; 2];
+    // SAFETY: plain libc call with a valid two-element array.
+    if unsafe { libc::pipe(fds.as_mut_ptr()) } != 0 {
+        eprintln!("ENGINE: pipe() failed");
+        std::process::exit(2);
+    }
+    // SAFETY: both descriptors were just created by pipe() and are owned here.
+    let (rd, wr) = unsafe { (fs::File::from_raw_fd(fds[0]), fs::File::from_raw_fd(fds[1])) };
+    drop(rd);
+    let mut cmd = Command::new(SFS_BIN);
+    cmd.args(args)
+        .env_clear()
+        .env("SFS_ALLOW_STDIN", "1")
+        .env("RUST_BACKTRACE", "0")
+        .current_dir(&scratch.dir)
+        .stdin(fs::File::open(&inp).expect("open stdin file"))
+        .stdout(wr)
+        .stderr(Stdio::piped());
+    // SAFETY: only async-signal-safe libc calls between fork and exec.
+    unsafe {
+        cmd.pre_exec(|| {
+            libc::alarm(60);
+            Ok(())
+        });
+    }
+    let out = match cmd.output() {
+        Ok(o) => o,
+        Err(e) => {
+            eprintln!("ENGINE: cannot run {SFS_BIN}: {e}");
+            std::process::exit(2);
+        }
+    };
+    let _ = fs::remove_file(inp);
+    Out { code: out.status.code(), signal: out.status.signal(), stdout: Vec::new(), stderr: out.stderr }
+}
